@@ -2,6 +2,13 @@
 import json
 
 CLAIMED = {
+    "C19": {
+        "level": "exploration",
+        "text": "Seeded search over store operation histories (save with all flag/filter combinations, compute_aggregate in any position, repeated saves) on a PandasStore built directly on a faulty, partially windowed stream run with CF-hostile stream ids, under the dirty allocator; every frame is compared with a model built from the messages the store consumed. Sampling, not proof.",
+        "ref": "DESIGN.md section 3 (C19)",
+        "note": "Naming and filter clauses are functions of their inputs and are decided by workload variation; the simulated dimensions are the operation history on one store object, fault entries upstream and the dirty allocator behind 'empty where not evaluated'. Exact names asserted only for already CF-safe parts. Sanitised-name collisions are a listed known finding.",
+        "technique": "deterministic simulation: seeded operation histories on one store object fed by a fault-injected stream run, dirty allocator, message-derived frame model",
+    },
     "C04": {
         "level": "exploration",
         "text": "Seeded search over multisets of flag vectors delivered as permuted / duplicated / regrouped message sequences through all three aggregation entry points, with adversarial bytes beneath masks (explicit and via the dirty allocator); every aggregate is compared with a pointwise precedence-join model and all deliveries of one multiset with each other. Sampling, not proof.",
